@@ -27,7 +27,7 @@ def setup(ctx):
 
 def generate(rng, tier, i):
     doc = gn.gen_netlist_doc(rng)
-    return {"cls": rng.choice(["tree", "text_block", "text_flow", "file"]), "doc": doc}
+    return {"cls": rng.choice(["tree", "text_block", "text_flow", "file", "handle"]), "doc": doc}
 
 
 def directed():
@@ -47,6 +47,8 @@ def check(case, ctx):
         src = gn.doc_text(doc, flow=True)
     elif case["cls"] == "file":
         src, via = gn.doc_text(doc, flow=False), "file"
+    elif case["cls"] == "handle":
+        src, via = gn.doc_text(doc, flow=False), "handle"
     ok, n1 = ctx.call(nu.load, src, via)
     if not ok:
         ctx.violation("wellformed_rejected", f"reader rejected a well-formed document: {type(n1).__name__}: {str(n1)[:200]} :: {doc}")
